@@ -631,8 +631,9 @@ def evaluate(ctx, cases):
 
 OPEN = ["the Umeyama triple is evo's own (numpy SVD, not modelled): it is certified per case by umeCert eps=2^-30 on the "
         "first-n positions; the optimality theorems are corollaries of C03 under umeCert 0",
-        "align_twice_identity is proved for noise-free-after-alignment data only in the sense of C03.umeyama_noise_free "
-        "(three non-collinear positions); on general data it is tested by the oracle",
+        "align_twice_identity is proved under the decidable uniqueness condition certPD on the second alignment problem "
+        "(tr(A)I-A positive definite); where it fails the minimiser is genuinely not unique; the oracle tests it on "
+        "well-conditioned data",
         "RMSE clauses are stated for the sum of squared position errors over the poses used (RMSE is its monotone image)",
         "quaternion view of the orientations: compared through the rotation matrix at 1e-9 (quaternion extraction is C08's certificate)",
         "frame condition 'reference unchanged': the model is purely functional; checked by byte snapshots on every case"]
